@@ -184,7 +184,7 @@ package eio
 //@     requires arg0 == reason [C06.eio.reason]
 //@     update userclosed = userclosed + 1
 //@   callsite onClose
-//@     requires arg0 == s.id && userclosed == 1 [C06.eio.store.sid]
+//@     requires arg0 == old(s.id) && userclosed == 1 [C06.eio.store.sid]
 //@     update unregistered = unregistered + 1
 //@   callsite ServerTransport.Close
 //@     requires reason != ReasonTransportClose && reason != ReasonTransportError [C06.eio.transport.notwice]
